@@ -75,6 +75,11 @@ STMTS = [
     ("if_else", "must_accept", "if (PvV) { ReV = RtV; } else { RxV = RtV; }", [W % "Re", W % "Rx"]),
     ("for_loop", "must_accept", "for (j = 0; j < 3; j++) { RxV += RtV; }", [W % "Rx", "REPEAT("]),
     ("for_no_step", "may", "for (j = 0; j < 3; ) { RxV += RtV; }", [W % "Rx", "REPEAT("]),
+    ("for_no_step_two_stmts", "may", "for (j = 0; j < 3; ) { RxV += RtV; ReV = RtV; j = j + 1; }", [W % "Rx", W % "Re", 'SETL("j"', "REPEAT("]),
+    ("for_no_init", "may", "for (; j < 3; j++) { RxV += RtV; ReV = RtV; }", [W % "Rx", W % "Re", "REPEAT("]),
+    ("for_two_stmts", "must_accept", "for (j = 0; j < 3; j++) { RxV += RtV; ReV = RtV; }", [W % "Rx", W % "Re", "REPEAT("]),
+    ("nested_for", "must_accept", "for (j = 0; j < 3; j++) { for (k = 0; k < 2; k++) { RxV += RtV; } ReV = RtV; }", [W % "Rx", W % "Re", "REPEAT("]),
+    ("if_in_if", "must_accept", "if (PvV) { if (RtV) { ReV = RtV; } RxV = RtV; } else { RyV = RtV; }", [W % "Re", W % "Rx", W % "Ry"]),
     ("stmt_expr", "must_accept", "ReV = ({ int32_t q = RtV; q; });", [W % "Re", 'SETL("q"']),
 ]
 EXPRS = [
@@ -88,10 +93,44 @@ EXPRS = [
     ("string_literal", "must_raise", '"abc"', []),
     ("assignment_in_expr", "may", "(RxV = RtV)", [W % "Rx"]),
     ("postfix_in_expr", "must_accept", "i++", ['SETL("i", INC']),
+    # a side effect in an operand C always evaluates survives constant folding of the operator
+    ("postfix_and_zero", "may", "(i++ && 0)", ['SETL("i", INC']),
+    ("postfix_or_one", "may", "(i++ || 1)", ['SETL("i", INC']),
+    ("call_and_zero", "may", "(clz32(RtV) && 0)", ["hex_clz32("]),
+    ("postfix_times_zero", "may", "(i++ * 0)", ['SETL("i", INC']),
+    ("postfix_in_const_ternary_cond", "may", "((i++ , 1) ? RsV : RtV)", ['SETL("i", INC']),
+    ("postfix_ternary_cond", "must_accept", "(i++ ? RsV : RtV)", ['SETL("i", INC']),
+    ("postfix_cmp", "must_accept", "(i-- < 3)", ['SETL("i", DEC']),
+    ("postfix_in_cast", "must_accept", "((int64_t)i++)", ['SETL("i", INC']),
+    ("postfix_in_not", "must_accept", "(!i++)", ['SETL("i", INC']),
+    ("two_calls", "must_accept", "(clz32(RtV) + clo32(RsV))", ["hex_clz32(", "hex_clo32("]),
     ("call_in_expr", "must_accept", "clz32(RtV)", ["hex_clz32("]),
     ("stmt_expr_in_expr", "must_accept", "({ int32_t q = RtV; q; })", ['SETL("q"']),
     ("load_in_expr", "must_accept", "((int32_t)mem_load_s32(EA))", ["LOADW("]),
 ]
+
+
+# a behaviour may call a local like one of the transformer's own intermediate values: nothing may vanish then
+NAME_PROGS = [
+    ("if_else", "{ int32_t %(n)s = 5; if (PuV) { RdV = RsV; } else { ReV = RtV; } RxV = %(n)s; }", [W % "Rd", W % "Re", W % "Rx", "BRANCH("]),
+    ("ternary", "{ int32_t %(n)s = 5; ReV = (PuV ? %(n)s : RtV); }", [W % "Re", "ITE("]),
+    ("for_loop", "{ int32_t %(n)s = 5; for (i = 0; i < 2; i++) { RxV += %(n)s; } }", [W % "Rx", "REPEAT("]),
+    ("arith_cast_store", "{ int32_t %(n)s = 5; RdV = (%(n)s + RsV) & RtV; ReV = ((int8_t)%(n)s) << 2; EA = RsV; mem_store_u32(EA, %(n)s); }",
+     [W % "Rd", W % "Re", "ADD(", "LOGAND(", "SHIFTL0(", "STOREW("]),
+    ("hybrids", "{ int32_t %(n)s = 5; i++; RdV = clz32(%(n)s); ReV = ({ int32_t q = %(n)s; q; }); }",
+     [W % "Rd", W % "Re", 'SETL("i", INC', "hex_clz32(", 'SETL("q"']),
+    ("empty_arm", "{ int32_t %(n)s = 5; if (PuV) { } else { RdV = %(n)s; } cancel_slot; }", [W % "Rd", "BRANCH("]),
+]
+FEATURE_PROGS = [p_[1] % {"n": "v1"} for p_ in NAME_PROGS] + ["{ RdV = (RsV < RtV) ? -RsV : ~RtV; JUMP(RsV); RxV = RsV * 3 - riV; ReV = (RsV == 1) || (RtV != 2); }"]
+
+
+def op_base_names(texts):
+    """base names (numeric suffix stripped) of the C variables the compiler declares for its own ops"""
+    out = set()
+    for t in texts:
+        for m in re.finditer(r"RzILOp(?:Pure|Effect) \*(\w+?)_\d+ =", t):
+            out.add(m.group(1))
+    return out
 
 
 def probes():
@@ -129,6 +168,19 @@ def run(tier, replay=None):
     res.proof = st
     use_repo()
     ps = probes()
+    # op names harvested from what the compiler emits now (plus the fixed ones of Empty/NOP)
+    c0 = rc.compiler("READ_STATEMENTS")
+    texts = []
+    for pr in rc.parse_programs(FEATURE_PROGS):
+        if pr[0] == "ok":
+            r0 = rc.transform_tree(c0, pr[1])
+            if r0[0] == "ok":
+                texts.append(r0[1])
+    names = sorted(op_base_names(texts) | {"empty", "nop", "cond", "branch", "seq"})
+    for n in names:
+        for pid, prog, must in NAME_PROGS:
+            ps.append({"construct": "local_named_like_an_op", "class": "may", "position": f"{n}/{pid}", "src": prog % {"n": n},
+                       "must": must + ['SETL("%s"' % n]})
     if replay:
         rp = json.load(open(replay))
         if "program" in rp:
